@@ -124,7 +124,11 @@ class Schema:
         for e in self.entities:
             h = f"ENTITY {e['name']}"
             if e["abstract"]:
-                h += " ABSTRACT SUPERTYPE"
+                h += " ABSTRACT"
+            if e["abstract"] or e.get("superexpr"):
+                h += " SUPERTYPE"
+            if e.get("superexpr"):
+                h += f" OF ({e['superexpr']})"
             if e["supers"]:
                 h += " SUBTYPE OF (" + ", ".join(e["supers"]) + ")"
             out.append(h + ";")
@@ -177,6 +181,8 @@ class Schema:
                 out.append(f"twhere {(w['label'] or '-').lower()} {w['expr'].encode().hex()}")
         for e in self.entities:
             out.append(f"entity {e['name'].lower()} {1 if e['abstract'] else 0} " + (",".join(x.lower() for x in e["supers"]) or "-"))
+            if e.get("superexpr"):
+                out.append("esuper " + e["superexpr"].lower().replace("oneof", "ONEOF").replace(" and ", " AND ").replace(" andor ", " ANDOR ").encode().hex())
             for kind in "EDI":
                 for a in e["attrs"]:
                     if a["kind"] == kind:
@@ -228,6 +234,9 @@ class Schema:
                 else:
                     k = "D" if a["kind"] == "D" else ("R" if a["redecl"] else "E")
                     L.append(f" ATTR {dn} kind={k} opt={1 if a['opt'] else 0} owner={n} type={self.spec_ref(a['type'])}")
+            if e["abstract"] or e.get("superexpr"):
+                L.append(" SS - " + rule_quote(rule_norm(("ABSTRACT " if e["abstract"] else "") + "SUPERTYPE" +
+                                                         (" OF " + e["superexpr"] if e.get("superexpr") else ""), True)))
             for a in self.attrs_ordered(e):
                 if a["kind"] == "D":
                     dn = (a["redecl"].lower() + "." if a["redecl"] else "") + a["name"].lower()
@@ -364,7 +373,14 @@ class Schema:
         (addt if kind == "type" else adde)(name)
         s = Schema(self.name)
         s.types = [t for t in self.types if t["name"] in need_t]
-        s.entities = [e for e in self.entities if e["name"] in need_e]
+        s.entities = [dict(e) for e in self.entities if e["name"] in need_e]
+        import re as _re
+        for e in s.entities:          # a supertype constraint needs all the subtypes it names
+            if e.get("superexpr"):
+                subs = {x["name"] for x in s.entities if e["name"] in x["supers"]}
+                toks = set(_re.findall(r"[A-Za-z_][A-Za-z0-9_]*", e["superexpr"])) - {"ONEOF", "AND", "ANDOR"}
+                if not toks <= subs:
+                    e.pop("superexpr")
         # inverse attributes need the inverted attribute: keep it simple, drop inverse attrs whose partner left
         return s
 
@@ -585,6 +601,14 @@ class Gen:
         for e in s.entities:
             if any(e["name"] in x["supers"] for x in s.entities) and r.random() < 0.25:
                 e["abstract"] = True
+        # supertype constraints over the direct subtypes: ONEOF / AND / ANDOR, nested
+        if K["rules"]:
+            for e in s.entities:
+                subs = [x["name"] for x in s.entities if e["name"] in x["supers"]]
+                if subs and r.random() < 0.4:
+                    r.shuffle(subs)
+                    e["superexpr"] = self.sup_expr(subs)
+                    s.tags.add("supertype-constraint")
         if any(len(e["supers"]) > 1 for e in s.entities):
             s.tags.add("multiple_supertypes")
         for e in s.entities:
@@ -634,6 +658,18 @@ class Gen:
             return parts[0], used
         op = r.choice([" AND ", " OR "])
         return op.join(f"({p})" for p in parts), used
+
+    def sup_expr(self, subs, top=True):
+        r = self.rng
+        if len(subs) == 1:
+            return subs[0] if (top or r.random() < 0.7) else f"ONEOF ({subs[0]})"
+        c = r.random()
+        if c < 0.4:
+            return "ONEOF (" + ", ".join(subs) + ")"
+        k = r.randint(1, len(subs) - 1)
+        a, b = self.sup_expr(subs[:k], False), self.sup_expr(subs[k:], False)
+        op = r.choice(["AND", "ANDOR"])
+        return f"{a} {op} {b}" if top else f"({a} {op} {b})"
 
     def add_rules(self, s):
         r = self.rng
